@@ -412,7 +412,17 @@ func c7Lazy(c *Ctx) {
 	}
 	// the field the Once closure publishes
 	pubField := ""
-	for _, body := range WithClosures(init) {
+	pubBodies := WithClosures(init)
+	for _, cl := range Calls(init) {
+		if IsCallTo(cl, "(*sync.Once).Do") {
+			if mk, ok := Args(cl)[1].(*ssa.MakeClosure); ok {
+				if b := onceBody(mk); b != nil {
+					pubBodies = append(pubBodies, b) // a method value handed to Do
+				}
+			}
+		}
+	}
+	for _, body := range pubBodies {
 		for _, st := range FieldStoresOf(body, lz) {
 			pubField = st.Field
 		}
